@@ -35,7 +35,7 @@ na = [{"property_id": p, "reason": NA.get(p, PENDING)} for p in ALL if p not in 
 commits = subprocess.run(["git", "-C", "/repo", "log", "--format=%H %s"], capture_output=True, text=True).stdout.splitlines()
 hooks = [l.split()[0] for l in commits if "verif hook" in l]
 m = {"version": 1,
-     "setup_cmd": "cd /verif/sim && CARGO_NET_OFFLINE=true cargo build --release --offline && CARGO_NET_OFFLINE=true cargo build --release --offline --no-default-features --target-dir /verif/sim/target-nofeat",
+     "setup_cmd": "cd /verif/sim && CARGO_NET_OFFLINE=true cargo build --release --offline && CARGO_NET_OFFLINE=true cargo build --release --offline --no-default-features --target-dir /verif/sim/target-nofeat && /verif/sim/target/release/akd-sim selftest",
      "hooks": {"guard": "akd_verif",
                "enable": "rustflags --cfg akd_verif from /verif/sim/.cargo/config.toml (applies to the path dependencies /repo/akd and /repo/akd_core)",
                "baseline_off_cmd": "cd /repo && (cargo nextest run --workspace --no-fail-fast --tool-config-file pb:/w/lib/nextest.toml --profile pb --test-threads 8 --offline || cargo test --workspace --no-fail-fast --offline)",
